@@ -208,18 +208,81 @@ let show_action = function
   | AChar (_, false) -> "chars" | AChar (_, true) -> "chars-entropy"
   | AWords (_, false) -> "words" | AWords (_, true) -> "words-entropy"
 
+
+(* ---- kernel sample: when MODELRUN_COQ names a file, every supported case is also written there as a Gallina goal
+   "<model function applied to the parsed arguments> = <the value this extracted program computed>", to be checked by
+   coqc with vm_compute: the kernel's evaluation of the model against the extracted code, on the very cases that were
+   compared with the implementation. ---- *)
+let coq_out : out_channel option =
+  match Sys.getenv_opt "MODELRUN_COQ" with
+  | Some path when path <> "" -> Some (open_out_gen [Open_append; Open_creat] 0o644 path)
+  | _ -> None
+let goal_counter = ref 0
+let pp_n n = Printf.sprintf "%s%%N" (ZA.to_string (zar_of_n n))
+let pp_z z = let s = ZA.to_string (zar_of_z z) in Printf.sprintf "(%s)%%Z" s
+let pp_nat k = Printf.sprintf "(N.to_nat %s)" (pp_n (n_of_int (int_of_nat k)))
+let pp_bool b = if b then "true" else "false"
+let pp_list f l = "[" ^ String.concat "; " (List.map f l) ^ "]"
+let pp_bytes (b : n list) = if b = [] then "(@nil N)" else "[" ^ String.concat "; " (List.map (fun x -> ZA.to_string (zar_of_n x)) b) ^ "]%N"
+let pp_opt f = function None -> "None" | Some x -> "(Some " ^ f x ^ ")"
+let pp_pair f g (a, b) = "(" ^ f a ^ ", " ^ g b ^ ")"
+let pp_err = function
+  | EBadLength -> "EBadLength" | ENoChars -> "ENoChars" | EFailRate -> "EFailRate" | EExhausted -> "EExhausted"
+  | ENoList -> "ENoList" | EEmptyList -> "EEmptyList" | EEmptyIndex -> "EEmptyIndex" | ETooShort -> "ETooShort"
+  | EBadFull -> "EBadFull" | EUnknownKind -> "EUnknownKind" | ETokenTooLarge -> "ETokenTooLarge"
+let pp_panic = function PDrawZero -> "PDrawZero" | PPrng -> "PPrng" | PIndex -> "PIndex" | PNil -> "PNil"
+let pp_outcome f = function
+  | Done a -> "(Done " ^ f a ^ ")" | Err e -> "(Err " ^ pp_err e ^ ")" | Panic p -> "(Panic " ^ pp_panic p ^ ")"
+let pp_recipe r =
+  Printf.sprintf "(mkCR %s %s %s %s %s %s %s)" (pp_z r.crLength) (pp_n r.crAllow) (pp_n r.crRequire) (pp_n r.crExclude)
+    (pp_bytes r.crAllowChars) (pp_list pp_bytes r.crRequireSets) (pp_bytes r.crExcludeChars)
+let pp_budget b = Printf.sprintf "(mkBudget %s %s %s)" (pp_z b.bTrials) (pp_z b.bFailNum) (pp_z b.bFailDen)
+let pp_source (src : source) = pp_list (fun (Chunk (bs, f)) -> Printf.sprintf "Chunk %s %s" (pp_bytes bs) (pp_bool f)) src
+let pp_entropy = function
+  | EntCount c -> "(EntCount " ^ pp_z c ^ ")" | EntSimple (l, sz) -> "(EntSimple " ^ pp_z l ^ " " ^ pp_n sz ^ ")"
+let pp_token tk = Printf.sprintf "(Tok %s %s)" (pp_bytes tk.value) (pp_n tk.ttype)
+let pp_bonus = function BonusNone -> "BonusNone" | BonusRandom -> "BonusRandom" | BonusOne -> "BonusOne"
+let pp_wle e = Printf.sprintf "(mkWLE %s %s %s %s)" (pp_z e.weLength) (pp_n e.weSize) (pp_bonus e.weBonus) (pp_opt pp_entropy e.weSep)
+let pp_wl wl = Printf.sprintf "(mkWL %s %s)" (pp_list pp_bytes wl.wlWords) (pp_nat wl.wlUncap)
+let pp_sep = function
+  | SepChar c -> "(SepChar " ^ pp_bytes c ^ ")" | SepConst c -> "(SepConst " ^ pp_bytes c ^ ")" | SepRecipe r -> "(SepRecipe " ^ pp_recipe r ^ ")"
+let pp_cap = function
+  | CapNone -> "CapNone" | CapFirst -> "CapFirst" | CapAll -> "CapAll" | CapRandom -> "CapRandom" | CapOne -> "CapOne" | CapOther -> "CapOther"
+let pp_diag = function DEntropySimpleNot z -> "(DEntropySimpleNot " ^ pp_z z ^ ")" | DDuplicates z -> "(DDuplicates " ^ pp_z z ^ ")"
+let pp_tbl tbl = pp_list (pp_pair pp_bytes pp_bytes) tbl
+let emit_goal id lhs rhs =
+  match coq_out with
+  | None -> ()
+  | Some oc ->
+      incr goal_counter;
+      Printf.fprintf oc "(* case %s *)\nGoal %s = %s.\nProof. vm_compute. reflexivity. Qed.\n" id lhs rhs;
+      flush oc
+let current_id = ref ""
+let pp_rt = function
+  | RtNone -> "RtNone" | RtOk -> "RtOk" | RtErr e -> "(RtErr " ^ pp_err e ^ ")" | RtPanic -> "RtPanic"
+  | RtLossy ts -> "(RtLossy " ^ pp_list pp_token ts ^ ")"
+let pp_wsrc = function
+  | BuiltinWords -> "BuiltinWords" | BuiltinSyllables -> "BuiltinSyllables" | FromFile ws -> "(FromFile " ^ pp_list pp_bytes ws ^ ")"
+let pp_action = function
+  | AUsage -> "AUsage" | AFlagError -> "AFlagError" | AHelp -> "AHelp" | AFatal -> "AFatal" | AOutside -> "AOutside"
+  | AChar (r, e) -> Printf.sprintf "(AChar %s %s)" (pp_recipe r) (pp_bool e)
+  | AWords (p, e) -> Printf.sprintf "(AWords (mkWP %s %s %s %s) %s)" (pp_wsrc p.wpSource) (pp_z p.wpSize) (pp_sep p.wpSep) (pp_cap p.wpCap) (pp_bool e)
+
 let run_case fam t =
   match fam with
   | "draw" ->
       let n = next_n t in
       let src = next_source t in
       let (o, consumed) = run_draw n src in
+      emit_goal !current_id (Printf.sprintf "run_draw %s %s" (pp_n n) (pp_source src)) (pp_pair (pp_outcome pp_n) pp_n (o, consumed));
       Printf.sprintf "%s consumed=%d %s" (show_outcome (fun i -> string_of_int (int_of_n i)) o) (int_of_n consumed) no_diag
   | "chargen" ->
       let r = next_recipe t in
       let b = next_budget t in
       let src = next_source t in
       let (o, consumed) = run_chargen b r src in
+      emit_goal !current_id (Printf.sprintf "(run_chargen %s %s %s, char_generate_diag %s, char_entropy %s)" (pp_budget b) (pp_recipe r) (pp_source src) (pp_recipe r) (pp_recipe r))
+        (Printf.sprintf "(%s, %s, %s)" (pp_pair (pp_outcome (pp_list pp_bytes)) pp_n (o, consumed)) (pp_list pp_diag (char_generate_diag r)) (pp_entropy (char_entropy r)));
       let d = render_diag (char_generate_diag r) in
       (match o with
        | Done cand ->
@@ -229,16 +292,22 @@ let run_case fam t =
   | "recipe" ->
       let r = next_recipe t in
       let (((a, c), e), den) = recipe_report r in
+      emit_goal !current_id (Printf.sprintf "recipe_report %s" (pp_recipe r)) (Printf.sprintf "(%s, %s, %s, %s)" (pp_bytes a) (pp_z c) (pp_entropy e) (pp_z den));
       let ed = (match e with EntSimple (_, N0) -> [DEntropySimpleNot Z0] | _ -> []) in
       Printf.sprintf "alphabet=%s count=%s ent=%s sp=%s/%s stable=1 %s" (hex_of_bytes a)
         (hexz (zar_of_z c)) (show_entropy e) (hexz (zar_of_z c)) (hexz (zar_of_z den))
         (render_diag (ed @ ed @ ed @ ed))
   | "token" ->
       let ts = next_list t (fun t -> let v = next_bytes t in let ty = next_n t in (v, ty)) in
+      (let toks = List.map (fun (v, ty) -> { value = v; ttype = ty }) ts in
+       let ((k, mi), rt) = roundtrip_report toks in
+       emit_goal !current_id (Printf.sprintf "roundtrip_report %s" (pp_list pp_token toks))
+         (Printf.sprintf "(%s, %s, %s)" (pp_n k) (pp_outcome pp_bytes mi) (pp_rt rt)));
       show_roundtrip ts ^ " " ^ no_diag
   | "tokenize" ->
       let pw = next_bytes t in
       let idx = next_bytes t in
+      emit_goal !current_id (Printf.sprintf "tokenize %s %s" (pp_bytes pw) (pp_bytes idx)) (pp_outcome (pp_list pp_token) (tokenize pw idx));
       (match tokenize pw idx with
        | Done ts -> Printf.sprintf "ok %s entok=1 %s" (show_tokens (List.map (fun tk -> (tk.value, tk.ttype)) ts)) no_diag
        | Err e -> Printf.sprintf "err %s %s" (err_name e) no_diag
@@ -248,6 +317,8 @@ let run_case fam t =
       let (tbl, tstr) = next_titles t in
       let (l, _) = next_words t in
       let (o, d) = run_new_word_list tbl emit l in
+      emit_goal !current_id (Printf.sprintf "run_new_word_list %s %s %s" (pp_tbl tbl) (pp_opt (pp_list pp_bytes) emit) (pp_list pp_bytes l))
+        (pp_pair (pp_outcome (pp_opt pp_wl)) (pp_list pp_diag) (o, d));
       (match o with
        | Done (Some wl) ->
            Printf.sprintf "ok size=%d words=%s titles=%s slice=same %s" (List.length wl.wlWords) (show_strs wl.wlWords) tstr (render_diag d)
@@ -276,6 +347,9 @@ let run_case fam t =
        | Ok wl ->
          let r = { wrList = wl; wrLength = len; wrSep = sep; wrCap = cap } in
          let (o, consumed) = run_wlgen tbl b r src in
+         emit_goal !current_id (Printf.sprintf "(run_wlgen %s %s (mkWLR %s %s %s %s) %s, wl_generate_diag (mkWLR %s %s %s %s))" (pp_tbl tbl) (pp_budget b)
+             (pp_opt pp_wl wl) (pp_z len) (pp_sep sep) (pp_cap cap) (pp_source src) (pp_opt pp_wl wl) (pp_z len) (pp_sep sep) (pp_cap cap))
+           (Printf.sprintf "(%s, %s)" (pp_pair (pp_outcome (pp_pair (pp_list pp_token) pp_wle)) pp_n (o, consumed)) (pp_list pp_diag (wl_generate_diag r)));
          let d = render_diag (wl_generate_diag r) in
          let pre = (match wl with Some w when lk <> "zero" -> Printf.sprintf "order=%s titles=%s " (show_strs w.wlWords) tstr | _ -> "") in
          (match o with
@@ -288,6 +362,8 @@ let run_case fam t =
       let b = next_budget t in
       let src = next_source t in
       let (o, consumed) = run_sep b sep src in
+      emit_goal !current_id (Printf.sprintf "run_sep %s %s %s" (pp_budget b) (pp_sep sep) (pp_source src))
+        (pp_pair (pp_outcome (pp_pair pp_bytes (pp_opt pp_entropy))) pp_n (o, consumed));
       let d = render_diag (sep_diag sep) in
       (match o with
        | Done (v, e) -> Printf.sprintf "ok %s ent=%s consumed=%d %s" (hex_of_bytes v)
@@ -304,6 +380,11 @@ let run_case fam t =
       let src = next_source t in
       let fs p = (match List.assoc_opt p files with Some c -> c | None -> None) in
       let a = cli_plan fs argv in
+      emit_goal !current_id
+        (Printf.sprintf "cli_plan (fun p => %s None) %s"
+           (String.concat "" (List.map (fun (p, c) -> Printf.sprintf "if beqb p %s then %s else " (pp_bytes p) (pp_opt pp_bytes c)) files))
+           (pp_list pp_bytes argv))
+        (pp_action a);
       let needs = (match a with AWords (p, _) -> (match p.wpSource with BuiltinWords -> 1 | BuiltinSyllables -> 2 | FromFile _ -> 0) | _ -> 0) in
       let aw = if needs = 1 then builtin_list "agwordlist.txt" else Err ENoList in
       let asyl = if needs = 2 then builtin_list "agsyllables.txt" else Err ENoList in
@@ -399,6 +480,7 @@ let () =
         let t = { rest = String.split_on_char ' ' line } in
         let id = next t in
         let fam = next t in
+        current_id := id ^ " " ^ fam;
         let res = try run_case fam t with Failure m -> "MODEL-FAILURE " ^ m | Not_found -> "MODEL-FAILURE not_found" in
         print_string id; print_char ' '; print_endline res
       end
